@@ -13,6 +13,11 @@ Inductive query :=
 
 Definition case := (list (char * Z) * fmtstr * list query)%type.
 
+(* shorthands that keep the harness-written literals small *)
+Definition QS (a b : Z) (out : res fmtstr) : query := QSlice (IxSlice (Some a) (Some b)) out.
+Definition QK (a b : Z) (r : fmtstr) : query := QSlice (IxSlice (Some a) (Some b)) (Ok r).
+Definition QA (n w : Z) : query := QAt n (Ok w).
+
 Definition fs_cells_eqb (a b : fmtstr) : bool := cells_eqb (cells a) (cells b).
 
 (* model = implementation, observed per character (cells) / as numbers / exception class *)
